@@ -1799,14 +1799,30 @@ _read_macro_dispatch: Mapping[str, RawLispReaderFn] = {
 }
 
 
+def _with_start_loc(form: LispReaderForm, line: int, col: int) -> LispReaderForm:
+    """Return `form` with the start of its reader location metadata, if it has any,
+    moved to `line` and `col`.
+
+    Forms introduced by the `#` dispatch character are read (and located) by reader
+    functions which only see the text after the `#`."""
+    if isinstance(form, IWithMeta):
+        meta = form.meta
+        if meta is not None and meta.val_at(READER_COL_KW) is not None:
+            return form.with_meta(
+                meta.assoc(READER_LINE_KW, line, READER_COL_KW, col)
+            )
+    return form
+
+
 def _read_reader_macro(ctx: ReaderContext) -> LispReaderForm:
     """Return a data structure evaluated as a reader macro from the input stream."""
+    line, col = ctx.reader.line, ctx.reader.col
     start = ctx.reader.advance()
     assert start == "#"
     char = ctx.reader.peek()
 
     if (read_macro := _read_macro_dispatch.get(char)) is not None:
-        return read_macro(ctx)
+        return _with_start_loc(read_macro(ctx), line, col)
     elif begin_ns_name_chars.match(char):
         s = _read_sym(ctx, is_reader_macro_sym=True)
         assert isinstance(s, sym.Symbol)
